@@ -44,6 +44,8 @@ pub struct ObjState {
 
 /// The protected value. Plain (non-atomic) fields are read and written by every operation: race-detector bait.
 pub struct Payload {
+    /// replaced by every operation when it enters (see feature `uafbait`)
+    pub heap:   Box<u64>,
     pub a:      u64,
     pub b:      u64,
     pub last:   usize,
@@ -348,7 +350,16 @@ impl RunCtx {
 // ---------------------------------------------------------------------------------------------
 // The span of an operation: from the moment its closure is invoked until it returns / its future completes or is dropped
 
-pub struct Span { ctx: Arc<RunCtx>, op: OpId, done: bool }
+/// Raw pointer to the protected value, derived from the `&mut T` the operation was handed. It is only used while that borrow is
+/// still alive (the span ends before the closure returns / the future is destroyed), so every use is legitimate on a correct
+/// crate - and is exactly what the aliasing model of Miri, ASan and TSan look at when two operations overlap.
+struct PayloadPtr(*mut Payload);
+unsafe impl Send for PayloadPtr {}
+
+struct HeapPtr(*mut u64);
+unsafe impl Send for HeapPtr {}
+
+pub struct Span { ctx: Arc<RunCtx>, op: OpId, done: bool, pl: PayloadPtr, heap: HeapPtr }
 
 impl Span {
     pub fn enter(ctx: &Arc<RunCtx>, op: OpId, p: &mut Payload) -> Span {
@@ -388,10 +399,17 @@ impl Span {
         }
         st.inside.store(op + 1, ORD);
         ctx.note_for_firer();
-        Span { ctx: Arc::clone(ctx), op, done: false }
+        // what user code does all the time: keep a pointer into the value's own heap data for the duration of the operation
+        let heap = if cfg!(feature = "uafbait") { p.heap = Box::new(op as u64); HeapPtr(&mut *p.heap as *mut u64) } else { HeapPtr(std::ptr::null_mut()) };
+        Span { ctx: Arc::clone(ctx), op, done: false, pl: PayloadPtr(p as *mut Payload), heap }
     }
 
     pub fn finish(mut self) { self.done = true; }
+
+    /// The protected value, through the borrow this operation was given (all accesses of a body go through here, so that an
+    /// access made after ANOTHER operation obtained its own `&mut` is visible to the aliasing model of Miri)
+    #[allow(clippy::mut_from_ref)]
+    pub fn payload(&self) -> &mut Payload { unsafe { &mut *self.pl.0 } }
 }
 
 impl Drop for Span {
@@ -413,6 +431,11 @@ impl Drop for Span {
             }
         }
         let st = &ctx.objs[def.obj];
+        if !st.dead.load(ORD) {
+            // last access of this operation to the value, through the borrow it was given
+            unsafe { (*self.pl.0).last = self.op; (*self.pl.0).b = (*self.pl.0).b.rotate_left(1); }
+            if cfg!(feature = "uafbait") && !self.heap.0.is_null() { unsafe { *self.heap.0 = (*self.heap.0).wrapping_add(1); } }
+        }
         if st.dead.load(ORD) {
             ctx.report("C05", "operation_still_inside_destroyed_value", format!("after_free_exit:{}", def.kind.name()), format!("op {} on object {} finished after the value was destroyed", self.op, def.obj));
         }
@@ -450,7 +473,7 @@ pub fn closure_body(ctx: &Arc<RunCtx>, op: OpId, p: &mut Payload) -> u64 {
     let n = ctx.prog.ops[op].body.len();
     for i in 0..n {
         match ctx.prog.ops[op].body[i] {
-            Step::Touch => p.touch(ctx, op),
+            Step::Touch => span.payload().touch(ctx, op),
             Step::Nest(c) => nested_blocking(ctx, c),
             Step::Hold(h) => { let _b = ctx.blocked(op, PH_HOLD); ctx.progress(); ctx.holds[h].wait(); }
             Step::Panic => { ctx.expected_panic_seen.fetch_add(1, ORD); panic!("vh-expected-panic op {}", op) }
@@ -473,7 +496,7 @@ pub fn future_body<'a>(ctx: Arc<RunCtx>, op: OpId, p: &'a mut Payload) -> BoxFut
         let n = ctx.prog.ops[op].body.len();
         for i in 0..n {
             match ctx.prog.ops[op].body[i] {
-                Step::Touch => p.touch(&ctx, op),
+                Step::Touch => span.payload().touch(&ctx, op),
                 Step::Yield => { ctx.recs[op].pendings.fetch_add(1, ORD); YieldOnce { done: false }.await }
                 Step::Gate(g) => GateFut { gate: Arc::clone(&ctx.gates[g]), ctx: Arc::clone(&ctx), op, registered: false }.await,
                 Step::Nest(c) => nested_async(Arc::clone(&ctx), c).await,
@@ -985,7 +1008,7 @@ pub fn build(prog: Program, native: bool) -> Handles {
     let mut objs = vec![]; let mut weak = vec![]; let mut objects = vec![];
     for i in 0..prog.n_obj {
         let st = Arc::new(ObjState { idx: i, occ: AtomicI32::new(0), inside: AtomicUsize::new(0), dead: AtomicBool::new(false), drops: AtomicU32::new(0), drop_stamp: AtomicU64::new(0) });
-        let d = Arc::new(Desync::new(Payload { a: 0, b: 0, last: 0, canary: CANARY, st: Arc::clone(&st), sink: Arc::clone(&sink) }));
+        let d = Arc::new(Desync::new(Payload { heap: Box::new(0), a: 0, b: 0, last: 0, canary: CANARY, st: Arc::clone(&st), sink: Arc::clone(&sink) }));
         // the mortal object is not reachable through the context: only explicit owners keep it alive
         weak.push(Mutex::new(if prog.mortal == Some(i) { Weak::new() } else { Arc::downgrade(&d) }));
         objs.push(st);
